@@ -60,6 +60,7 @@ proof fn lemma_eea_involution(st: ZS, msg: Seq<u32>, len: int)
     }
 }
 //@section code gm-zuc/src/lib.rs
+#[derive(Debug)]
 struct ZUC {
     s: [u32; 16],
     r1: u32,
@@ -69,6 +70,7 @@ struct ZUC {
 //@stub zuc ZUC::new
 //@stub zuc ZUC::generate_keystream
 //@section code gm-zuc/src/eea.rs
+#[derive(Debug)]
 struct EEA {
     zuc: ZUC,
 }
@@ -131,6 +133,7 @@ impl EEA {
 }
 
 //@section code gm-zuc/src/eia.rs
+#[derive(Debug)]
 struct EIA {
     zuc: ZUC,
 }
